@@ -25,6 +25,13 @@ class VUniqueTag(UniqueTag):
     ident: int
 
 
+@tag_dataclass
+class VNote(Tag):
+    """A tag with a string field: several of them on one node iterate in an order that
+    depends on the hash seed."""
+    text: str
+
+
 import dataclasses as _dc
 
 
